@@ -126,9 +126,13 @@ func harnessC04OnceHistory() {
 	}
 }
 
-//verif:entry property=C04 tier=both bounds="Once handler with a value filter (accepts N>0) between two ordinary handlers; G concurrent publishers each publishing one event whose value (accepted or rejected) is symbolic; every interleaving within the preemption bound" cover="raced" G_quick=2 G_thorough=3 preempt_quick=2 preempt_thorough=3 race=on
-func harnessC04Concurrent() {
-	G := vParam("G", 2)
+//verif:entry property=C04 tier=both bounds="Once handler with a value filter (accepts N>0) between two ordinary handlers; G concurrent publishers each publishing one event whose value (accepted or rejected) is symbolic; every interleaving within the preemption bound" cover="raced" G_quick=2 G_thorough=3 preempt_quick=2 preempt_thorough=2 race=on
+func harnessC04Concurrent() { c04Concurrent(vParam("G", 2)) }
+
+//verif:entry property=C04 tier=thorough bounds="as above with 2 concurrent publishers and up to 3 preemptions" cover="raced" preempt=3 race=on
+func harnessC04ConcurrentDeep() { c04Concurrent(2) }
+
+func c04Concurrent(G int) {
 	c01Log, c01Re = nil, nil
 	bus := New()
 	async := vBool()
